@@ -1173,6 +1173,7 @@ class LieTensor(Tensor):
         flag = t2.abs() < 1. - eps
         yaw1 = torch.atan2(t3, t4)
         yaw2 = -2 * pm(t2) * torch.atan2(x, w)
+        yaw2 = torch.atan2(yaw2.sin(), yaw2.cos()) # wrap to the principal range
 
         roll = torch.where(flag, roll1, roll2)
         pitch = torch.asin(t2.clamp(-1, 1))
